@@ -61,19 +61,22 @@ var cports = []int32{80, 8080, 53, 443}
 
 const slotPorts = 20
 
-// fixedBase: seed-dependent high range below ip_local_port_range (32768..60999), 1000 slots of 20 ports.
-func fixedBase(seed int64) int {
-	s := seed % 2000
+// Fixed host ports: every worker owns one block of hostports.BlockSize (64) ports, exclusively among all harness
+// processes on this machine (flock, see verif/harness/hostports); a case uses one of the block's three slots of 20
+// ports, chosen from seed and case index. The case's structure is a function of (seed, idx, prior) only; the
+// absolute port numbers depend on which block the worker obtained and are recorded in the witness.
+func slotOf(seed int64, idx, kind int) int {
+	s := int(seed%3) + idx + kind
 	if s < 0 {
 		s = -s
 	}
-	return 10000 + int(s)
+	return s % 3
 }
 
-func genCase(seed int64, idx, kind int) *CaseSpec {
+func genCase(seed int64, idx, kind, blockBase int) *CaseSpec {
 	r := newRng(seed, "case", idx*3+kind)
 	cs := &CaseSpec{ID: fmt.Sprintf("%d:%d:%d", seed, idx, kind)}
-	cs.FixedLo = fixedBase(seed) + ((idx*3+kind)%1000)*slotPorts
+	cs.FixedLo = blockBase + slotOf(seed, idx, kind)*slotPorts
 	feat := map[string]bool{}
 
 	// ---- pods
